@@ -30,7 +30,7 @@ FOUR = ("circ4", "con4", "gal4", "incr4", "line4", "nl4", "sup4")
 def REQUIRED(tier):  # noqa: N802
     return {"length_evaluations": 1000, "bye_replacements": 5000,
             "optimum_instances": 2 if tier == "quick" else 7,
-            "asymmetric_matrices": 50}
+            "asymmetric_matrices": 50, "size_window_plans": 10}
 
 
 def plan(tier: str, seed: int):
@@ -165,7 +165,8 @@ def gen_matrix(rng, n):
     kind = int(rng.integers(7))
     m = [[0] * n for _ in range(n)]
     sym = kind in (0, 1, 2)
-    hi = int(rng.choice([3, 10, 100, 10_000, 10 ** 9]))
+    hi = int(rng.choice([3, 10, 100, 10_000, 10 ** 9, 2 ** 31, 10 ** 11,
+                         10 ** 12]))
     for i in range(n):
         for j in range(n):
             if i == j or (sym and j < i):
@@ -266,6 +267,11 @@ def random_shard(ctx, count):
     for it in range(count):
         n = int(rng.choice([2, 4, 4, 6, 6, 8, 10, 12]))
         rounds = int(rng.choice([1, 2, 2, 3]))
+        if it % 20 == 13:
+            # team / day counts around 2^6, 2^7, 2^8
+            n, rounds = [(64, 1), (66, 1), (128, 1), (130, 1), (4, 43),
+                         (4, 86), (6, 52)][int(rng.integers(7))]
+            ctx.count("size_window_plans")
         ll = rounds * n - 1
         cfg = (rounds, 1, min(3, ll), 1, min(3, ll), min(1, ll), ll)
         D = (n - 1) * rounds
@@ -307,8 +313,16 @@ def random_shard(ctx, count):
                         if rng.integers(4) == 0:
                             p[d][a] = (a + 1) * int(rng.choice([1, -1]))
             tag = "all-away"
-        eval_length(ctx, n, cfg, matrix, p, tag,
-                    "all" if n * D <= 80 else 60)
+        try:
+            eval_length(ctx, n, cfg, matrix, p, tag,
+                        "all" if n * D <= 80 else 60)
+        except ValueError as e:
+            # the instance refuses tour-length bounds above 10^15: the
+            # generator left the accepted range, nothing was observed
+            if "upper_bound=" in str(e) and "is invalid" in str(e):
+                ctx.count("generator_rejected_by_ctor")
+                continue
+            raise
         if it % 300 == 0:
             ctx.sample({"n": n, "rounds": rounds, "matrix": matrix[:3],
                         "tag": tag, "plan_first_days": p[:2]})
